@@ -67,6 +67,15 @@ fn encode(enc: &'static Encoding, text: &str) -> Option<Vec<u8>> {
 }
 
 impl Prop for C17 {
+    fn post(&self, ctx: &Ctx) -> Option<CaseOut> {
+        // thorough tier: the same workload with the real binary under valgrind memcheck
+        if ctx.tier != Tier::Thorough {
+            return None;
+        }
+        let mut out = CaseOut::default();
+        crate::sanit::memcheck_cli(ctx, "C17", &mut out);
+        Some(out)
+    }
     fn id(&self) -> &'static str {
         "C17"
     }
